@@ -430,6 +430,11 @@ class IRGen:
                 objs.append(o)
             if chain:
                 objs += self.chain_objects(p, extra[p])
+                for o in objs:       # objects whose SelfRef differs from (package, name)
+                    if r.random() < 0.02:
+                        o["selfpkg"] = r.choice(PKGS + ["elsewhere"])
+                    if r.random() < 0.02:
+                        o["selfname"] = r.choice(OBJ_NAMES)
             s = {"pkg": p, "meta": {}, "entry": "", "objects": objs}
             if r.random() < 0.2:
                 s["meta"] = {"kind": r.choice(["core", "composable"]), "variant": r.choice(["", "dataquery", "panelcfg"]), "id": r.choice(["", "ident", "Foo"])}
@@ -588,5 +593,8 @@ def gen_pass(rng, schemas, kind, irgen):
         p, o, f = pick_field(rng, schemas)
         return {"p": kind, "pkg": p, "obj": o, "fld": f, "to": rng.choice(["Named", "Foo", ""])}
     if kind == "inline_objects_with_types":
-        return {"p": kind, "kinds": rng.choice([["scalar", "array", "map", "disjunction"], ["scalar"], ["array", "map"], ["enum"]])}
+        choices = [["scalar", "array", "map", "disjunction"], ["scalar"], ["array", "map"], ["enum"]]
+        if irgen.features.get("chain"):
+            choices += [["struct", "enum"], ["ref", "disjunction", "intersection"], ["scalar", "array", "map", "disjunction"]]
+        return {"p": kind, "kinds": rng.choice(choices)}
     return {"p": kind}
